@@ -349,8 +349,10 @@ func C11(x *Ctx) []Violation {
 			allKnown = false
 		}
 	}
-	if allKnown && someMethod != hasSync {
-		bad("sync-iff-method", "some mock has a method = %v, but sync imported = %v", someMethod, hasSync)
+	// every mock with a method needs sync for its locks; without any method sync may only be there because a
+	// signature or constraint mentions one of its types (then import-used holds), never on its own
+	if allKnown && someMethod && !hasSync {
+		bad("sync-iff-method", "some mock has a method, but sync is not imported")
 	}
 	// a source alias is kept when it conflicts with nothing
 	aliases := sourceAliases(x.World)
